@@ -1588,7 +1588,7 @@ void QXmppMessage::toXml(QXmlStreamWriter *writer, QXmpp::SceMode sceMode) const
     // extensions
     serializeExtensions(writer, sceMode);
 
-    // extended addresses (public part only) and other, unknown extensions
+    // extended addresses (public part only) and, if not split, other, unknown extensions
     QXmppStanza::extensionsToXml(writer, sceMode);
 
     writer->writeEndElement();
@@ -2169,6 +2169,15 @@ void QXmppMessage::serializeExtensions(QXmlStreamWriter *writer, QXmpp::SceMode 
     // public part (e.g. the fallback body for e2ee messages)
     for (const auto &fallback : d->fallbackMarkers) {
         fallback.toXml(writer);
+    }
+
+    // other, unknown extensions (e.g. custom payloads set by the application): nothing is known about
+    // them, so they are treated as sensitive and belong to the encrypted content, never to the public part
+    // (in the SceAll case toXml() writes them after the extended addresses)
+    if (sceMode == QXmpp::SceSensitive) {
+        for (const auto &extension : extensions()) {
+            extension.toXml(writer);
+        }
     }
 }
 
